@@ -1556,6 +1556,12 @@ def simp_cond_logic_ext(expr_s, expr):
     if len(sizes) != 1:
         return expr
     size = list(sizes)[0]
+    if cond.op in ["|", "^"]:
+        for arg in cond.args:
+            if arg.is_int() and int(arg) >> size:
+                # The integer has bits above the extended sources: the condition
+                # is not decided by the low part only
+                return expr
     args = [expr_s(arg[:size]) for arg in cond.args]
     cond = ExprOp(cond.op, *args)
     return ExprCond(cond, expr.src1, expr.src2)
